@@ -1302,6 +1302,27 @@ def strata_catalogue(tables, texts):  # pylint: disable=too-many-locals,too-many
 
 	for kind, regex in classes.items():
 		order_family(kind, regex)
+	# the same by path depth (the comparator has a rule of its own for two-element paths: "goes to bottom")
+	for kind, regex in {
+		'both of two path elements': r'^#include "[^/"]+/[^/"]+"$', 'both of three path elements': r'^#include "[^/"]+/[^/"]+/[^/"]+"$',
+		'both of four or more path elements': r'^#include "[^/"]+/[^/"]+/[^/"]+/[^"]+"$'}.items():
+		order_family(kind, regex)
+
+	def order_mixed_depth(rng, path, lines):
+		# a deeper include directly above a two-element include with the same first element ("catapult/utils/X.h" above "catapult/types.h"):
+		# the tree is silent, so the pair is in the linter's order as written and the two differ; swapped, it is not
+		block = [i for i in range(len(lines)) if re.match(r'^#include ["<]', lines[i])]
+		start = 1 if path.endswith('.cpp') else 0
+		pairs = [a for a, b in zip(block[start:], block[start + 1:]) if b == a + 1
+			and re.match(r'^#include "([^/"]+)/[^/"]+/[^"]+"$', lines[a]) and re.match(r'^#include "[^/"]+/[^/"]+"$', lines[b])
+			and lines[a].split('/')[0] == lines[b].split('/')[0] and not order_exempt(lines[a]) and not order_exempt(lines[b])]
+		if not pairs:
+			return None
+		a = rng.choice(pairs)
+		new = list(lines)
+		new[a], new[a + 1] = new[a + 1], new[a]
+		return Edit('', path, new, 'Includesorder', 'Includes needs fixing', None, 'stratum deeper include above a two-element include')
+	add('include order [two-element include above a deeper one]', '#include', order_mixed_depth)
 
 	def order_boundary(rng, path, lines):
 		block = [i for i in range(len(lines)) if re.match(r'^#include ["<]', lines[i])]
